@@ -114,9 +114,12 @@ TEXT = {
             "agreement oracle.",
             "Coq proof (CRep_get, iterator invariants) + correspondence", "5 (C15)"),
     "C16": ("Theorems: hex text round trip; JSON dump/load idempotent on exported objects; integers of every width and "
-            "booleans export to the documented shape and import back to the same backing, also through JSON. Composite "
-            "kinds: correspondence (exact tagged shape, from_obj, JSON, alternative spellings; all roots = original).",
-            "Coq proof (helpers, leaf kinds) + correspondence", "5 (C16)"),
+            "booleans export to the documented shape and import back to the same backing, also through JSON; C16_roundtrip "
+            "(full statement, every type): export of ANY representation of a value (iterators, hex strings, field dicts "
+            "with distinct names, union dicts) then import, directly or after a JSON dump / load, yields the freshly "
+            "constructed backing with the spec root; a JSON dump / load never changes what an object imports to. Exact "
+            "tagged shape of the real classes, alternative spellings: correspondence (all roots = original).",
+            "Coq proof (object round trip, all types) + correspondence", "5 (C16)"),
     "C17": ("Theorems (all H, src, trees, paths): a partial tree (subtrees replaced by bare summaries) has the same root; "
             "every read / non-expanding write / expanding write that succeeds on it succeeds on the complete tree with "
             "related results and equal roots (expanding writes under Hinj, relying on the repaired setter); every failure "
